@@ -140,6 +140,30 @@ Example C16_nested_query :
   disciplined nest_cfg nest_orc ([0;0;0;0;0;0;0] ++ repeat 1 8 ++ [0]) (init_state nest_cfg) nest_threads = false.
 Proof. exact nested_example. Qed.
 
+(* OPTION FLIPS on a long-lived object (`opt.cache_only = True`, `opt.overwrite = ...`, search vs __call__ per query),
+   between or even during queries: a history is a list of segments, each run under its own configuration.  The
+   coupling "search() returns last_opt.tree only when last_opt was produced for this very query" is the slot
+   invariant of the proof (pc PRFetch is reached only through the thread's own publish); it depends on the
+   configuration only through the mode, so it survives every flip. *)
+Theorem C16_returns_own_tree_under_option_flips :
+  forall orc m, m <> MAutoUncached ->
+  forall segs, Forall (fun s => c_mode (fst s) = m) segs ->
+  forall cfg0, c_mode cfg0 = m ->
+  forall ths, NoDup (map t_id ths) -> Forall fresh_thread ths ->
+  forall st' ths' tr, run_segs orc segs (init_state cfg0) ths = (st', ths', tr) ->
+  Forall (results_own orc) ths'.
+Proof. exact results_own_reconfigured. Qed.
+Print Assumptions C16_returns_own_tree_under_option_flips.
+
+(* overwrite=True; search A; search B; cache_only := True; search A  raises in the model (as in the code), it does
+   not return B's tree *)
+Example C16_cache_only_after_warmup :
+  enc_results (snd (fst (run_segs flip_orc
+     [(mkC MReusable OwTrue false 0 false, repeat 0 14); (mkC MReusable OwTrue true 0 false, repeat 0 4)]
+     (init_state (mkC MReusable OwTrue false 0 false)) [start_thread 7 [0; 1; 0]])))
+  = [[[0; 0; 0; 0; 0]; [1; 0; 1; 1; 0]; [0; 9]]].
+Proof. exact flip_example. Qed.
+
 (* verified checker: used by the correspondence on the results of every modelled run *)
 Theorem C16_checker_sound :
   forall orc ths, all_own_b orc ths = true -> Forall (results_own orc) ths.
